@@ -307,3 +307,18 @@ Proof.
   unfold wf_f32. intros W. unfold go_decode_isNaNOrInfinity, Decoder.is_nan_or_inf. rewrite land_expo_mask by lia.
   destruct ((f / 8388608) mod 256 =? 255) eqn:E; lia.
 Qed.
+
+(* ---------- Encoder.quantize: the guard ---------- *)
+(* The translated quantize and the model take the same decision on when to quantise (low resolution and
+   -128 <= coord < 128) and both leave every other coordinate untouched.  The quantised value itself is computed in
+   float64 by the source and stated on exact integers by the model; that part is tied by the correspondence run only. *)
+Lemma cm128_bits : cm128 = 3271557120. Proof. vm_compute. reflexivity. Qed.
+Lemma c128_bits : c128 = 1124073472. Proof. vm_compute. reflexivity. Qed.
+
+Theorem go_quantize_untouched hires f :
+  (negb hires && fle F32 cm128 f && flt F32 f c128) = false ->
+  go_encode_Encoder_quantize hires f = f /\ quantize hires f = f.
+Proof.
+  intros G. unfold go_encode_Encoder_quantize, quantize. rewrite <- cm128_bits, <- c128_bits.
+  rewrite G. rewrite <- andb_assoc in G. rewrite G. split; reflexivity.
+Qed.
